@@ -13,7 +13,8 @@ import vlib
 import drv_brokerclient as D
 from props import brokerclient_lib as L
 
-THEOREMS = ["C10_no_early_attempt", "C10_written_on_current_connection", "C10_reentrant_close_all_fired", "C10_reentrant_reachable", "C10_reentrant_never_resent", "C10_reentrant_conservative", "C10_unguarded_flush_refuted", "C10_never_stuck", "C10_one_connection", "C10_table_shape", "C10_reachable", "C10_resend", "C10_resend_at_loss", "C10_never_resent", "C10_once_per_connection", "C10_write_own_id",
+THEOREMS = ["C10_sync_step_simulation", "C10_sync_run_is_async_run", "C10_sync_reachable", "C10_sync_never_resent", "C10_sync_closed_forever",
+            "C10_no_early_attempt", "C10_written_on_current_connection", "C10_reentrant_close_all_fired", "C10_reentrant_reachable", "C10_reentrant_never_resent", "C10_reentrant_conservative", "C10_unguarded_flush_refuted", "C10_never_stuck", "C10_one_connection", "C10_table_shape", "C10_reachable", "C10_resend", "C10_resend_at_loss", "C10_never_resent", "C10_once_per_connection", "C10_write_own_id",
             "C10_reconnect_iff_pending", "C10_idle_connects_on_request", "C10_backoff_fail", "C10_backoff_fire", "C10_backoff",
             "C10_close", "C10_closed_forever"]
 WHICH = ("C10",)
@@ -80,7 +81,7 @@ def drop_point_histories(rnd, n):
 
 def run(ck):
     vlib.import_repo()
-    ck.build(["brokerclient", "brokerclienthook"])
+    ck.build(["brokerclient", "brokerclienthook", "brokerclientsync"])
     ck.props()
     rnd = random.Random(ck.seed)
     thorough = ck.tier == "thorough"
@@ -140,7 +141,7 @@ def run(ck):
         "Twisted (Deferred, Clock, deferLater, maybeDeferred) is exercised, not verified; that a reactor fires the back-off timer after the delay it was given is runtime behaviour: the model carries the failure COUNT handed to the retry policy, the driver checks the float bit for bit",
         "the retry policy is a parameter (any callable that returns a number); jitter of afkak's default policy is outside the statement; a policy or endpoint factory that RAISES is outside the model and not generated (a raising retryPolicy leaves self.connector a fired Deferred: the real client would never reconnect, C10_never_stuck says nothing about it)",
         "request payload bytes are outside the model; sendString/transport.write assumed not to raise (brokerclient.py:370-373 not modelled)",
-        "endpoints whose connect() completes synchronously are outside the model's alphabet; the model header argues they equal the outcome arriving as the next event, and this check runs that comparison on the real code (sync_connect_part); user callbacks/errbacks re-entering the client: inside _sendQueued's and close()'s loops they are INSIDE the extended model Model/BrokerClientHook.v (IConnOk / IClose interleavings, theorems C10_reentrant_*) and its correspondence; in tail positions the driver inserts the call as the next event (checked, not proved); where user code runs inside close()'s loop the comparison with the model is made only when the order of failing is observably the model's (newest first, no tombstone), otherwise only the order-independent monitors apply (the property does not fix that order)",
+        "endpoints whose connect() completes synchronously are modelled by Model/BrokerClientSync.v (connect mode per attempt; tryConnect transcribed statement by statement) and PROVED equal to the asynchronous run with the outcome as the next event (C10_sync_step_simulation, C10_sync_run_is_async_run); the real code is compared with both (sync_connect_part); user callbacks/errbacks re-entering the client: inside _sendQueued's and close()'s loops they are INSIDE the extended model Model/BrokerClientHook.v (IConnOk / IClose interleavings, theorems C10_reentrant_*) and its correspondence; in tail positions the driver inserts the call as the next event (checked on the real code; proved for reply callbacks by C06_tail_reentrancy); where user code runs inside close()'s loop the comparison with the model is made only when the order of failing is observably the model's (newest first, no tombstone), otherwise only the order-independent monitors apply (the property does not fix that order)",
         "a cancelled connection attempt fails with CancelledError (bare Deferred) or ConnectingCancelledError (Twisted's stock endpoints): both flavours are generated (policy suffix +cc, drv_brokerclient.CcNet), the model does not distinguish them",
         "events the environment cannot produce (no attempt / transport / Deferred to act on) cannot be applied to the implementation; a timer event with no timer armed is applied as an hour of virtual time passing",
         "C10_close and the model fail the pending requests newest first; the property does not fix the order: the driver puts the ClientError firings of one close() into that order before comparing and the monitor demands only the SET",
